@@ -194,8 +194,10 @@ def run(rep):
     rep.extra["class_counts"] = stats.get("classes", {})
     rep.extra["in_class_but_property_holds"] = stats.get("in_class_but_ok", {})
     rep.extra["cases_mentioning_a_mapped_name"] = stats.get("mentions", 0)
-    if stats.get("out_of_domain", 0):
-        raise vlib.BuildError("generator produced %d cases outside the domain predicate" % stats["out_of_domain"])
+    # dom_m (the domain of C18_subst_plain) excludes types that mention an UNMAPPED generic name
+    # (DateTime<Utc> under a table without that key); they are kept: frame and substitution of the
+    # other names are still checked by the relational oracle
+    rep.extra["cases_outside_dom_m_unmapped_generic"] = stats.get("out_of_domain", 0)
 
 
 def replay(rep, payload):
